@@ -24,7 +24,7 @@ from ..util import calls_in, qual, formals, returns_of, raises_of, \
     raise_name, has_fact, bind
 from ..terms import Terms, plain, unsite, is_none, mk_cmp, match, V, ANY, \
     alternatives, subterms, lookup, presence, show, owner_terms, \
-    owner_views, method_calls
+    owner_views, method_calls, stores
 
 PL = "rig.place_and_route.place"
 PLACERS = {
@@ -730,6 +730,58 @@ def _inside(node, anc):
     return False
 
 
+def _order_rewrite(fn):
+    """sequential.place: the guard set of vertex_order.remove() starts with
+    the member that the merged vertex replaced, and every member removed is
+    added to it (value terms: literals, set([..]) and temporaries are all
+    the same)."""
+    T = Terms(fn)
+    cfg = T.cfg
+    mc = method_calls(T, ["remove", "add"])
+    rms = [x for x in mc if x[1].func.attr == "remove" and any(
+        st == ("param", "vertex_order") for st in subterms(x[2]))]
+    if len(rms) != 1:
+        raise AnalysisError("sequential.place: expected one vertex_order."
+                            "remove(), found %d" % len(rms))
+    rn, rc, VO, (E,) = rms[0][0], rms[0][1], rms[0][2], rms[0][3]
+    # the guard: E not in G on the way to the removal
+    G = None
+    for t, p in T.all_facts(rn):
+        if t[0] == "cmp" and t[1] == "In" and not p and plain(t[2]) == \
+                plain(E):
+            G = t[3]
+    if G is None:
+        return False
+    # the member replaced: vertex_order[vertex_order.index(R)] = merged
+    R = None
+    for n, st, base, key, val in stores(T):
+        k = plain(key)
+        if plain(base) == plain(VO) and k[0] in ("call", "callv") and \
+                k[1][0] == "attr" and k[1][2] == "index" and len(k[2]) == 1:
+            R = k[2][0]
+    if R is None:
+        raise AnalysisError("sequential.place: the replacement of a member "
+                            "by the merged vertex was not found")
+    inner = plain(G)
+    start = None
+    if inner[0] == "set":
+        start = list(inner[1:])
+    elif inner[0] in ("call", "callv") and inner[1] in (
+            ("global", "set"), ("global", "frozenset")) and \
+            len(inner[2]) == 1 and inner[2][0][0] in ("list", "tuple",
+                                                      "set"):
+        start = list(inner[2][0][1:])
+    elif inner[0] in ("call", "callv") and inner[1] in (
+            ("global", "set"), ("global", "frozenset")) and not inner[2]:
+        start = []
+    if start is None:
+        raise AnalysisError("sequential.place: the initial content of the "
+                            "guard set is not a literal collection")
+    adds = [x for x in mc if x[1].func.attr == "add" and x[2] == G and
+            len(x[3]) == 1 and plain(x[3][0]) == plain(E)]
+    return R in start and len(adds) == 1 and cfg.dominates(rn, adds[0][0])
+
+
 def r4_pairing(program, rep):
     for name, spec in PLACERS.items():
         fn = program.get(spec)
@@ -829,36 +881,9 @@ def r4_pairing(program, rep):
     rep.guard("C02-R4", _sa_fixed_included, program, rep)
     # element-presence discipline in sequential's vertex-order rewrite
     fn = program.get(PLACERS["sequential"])
-    fl = Flow(fn)
-    rms = [c for c in calls_in(fn, "remove")
-           if chain(call_name(c)[1]) == "vertex_order"]
-    ok = len(rms) == 1
-    if ok:
-        node = fl.cfg.node_containing(rms[0])
-        el = chain(rms[0].args[0])
-        guard = None
-        for c, p, _ in fl.facts(node):
-            if p and isinstance(c, ast.Compare) and \
-                    isinstance(c.ops[0], ast.NotIn) and chain(c.left) == el:
-                guard = chain(c.comparators[0])
-        replaced = None
-        for s in ast.walk(fn):
-            if isinstance(s, ast.Assign) and isinstance(s.targets[0],
-                                                        ast.Subscript) and \
-                    chain(s.targets[0].value) == "vertex_order" and \
-                    isinstance(s.targets[0].slice, ast.Call) and \
-                    call_name(s.targets[0].slice)[0] == "index":
-                replaced = unparse(s.targets[0].slice.args[0])
-        ok = guard is not None and replaced is not None
-        if ok:
-            ds = [d for d in fl.defs if d.var == guard and
-                  d.mode == "assign"]
-            ok = len(ds) == 1 and replaced in unparse(ds[0].value) and \
-                unparse(ds[0].value).startswith("set(")
-            adds = [c for c in calls_in(fn, "add")
-                    if chain(call_name(c)[1]) == guard]
-            ok = ok and len(adds) == 1 and chain(adds[0].args[0]) == el and \
-                fl.cfg.dominates(node, fl.cfg.node_containing(adds[0]))
+    ok = rep.guard("C02-R4", _order_rewrite, fn)
+    if ok is None:
+        return
     rep.check(ok, "C02-R4", qual(fn), "when the vertex order is rewritten "
               "for a merged vertex, the member it replaced counts as "
               "already removed, and each member is removed at most once "
